@@ -9,7 +9,7 @@ From Bio.gen Require Import ImpGen.
 From Bio.Model Require Import GoSem GoLib.
 From Bio.Model Require Bed.
 From Bio.Proofs Require Import ImpProofs ImpProofsB ImpProofsE ImpProofsG ImpProofsH.
-From Bio.Proofs Require ImpProofsJ.
+From Bio.Proofs Require ImpProofsJ BaseProofs.
 Open Scope Z_scope.
 
 Definition rdr (n : nat) : imp_bed_reader := Imp_bed_reader (Z.of_nat n).
@@ -144,3 +144,184 @@ Theorem imp_bed_read_unfold fuel rd r :
   imp_bed_reader_read fuel rd r
   = after (go_while fuel (fun _ => Ret true) br_body (r, rd)) (fun '(r, rd__) => Panics).
 Proof. reflexivity. Qed.
+
+(* ---- Reader: read() until io.EOF or an error ------------------------------------------------------ *)
+Section BedReader.
+Variable t : term.
+Notation tc := (ImpProofsJ.term_code t).
+
+(* read() on a stream, one unit of fuel per line looked at *)
+Fixpoint rd_res (k : nat) (n : nat) (s : bytes) : res unit br_result :=
+  match k with
+  | O => NoFuel
+  | Datatypes.S k' =>
+    match take_line 10 s with
+    | (l', Some rest) =>
+      match Bed.do_line n (removelast l') with
+      | Bed.Skip => rd_res k' n rest
+      | Bed.StopErr => Ret (Stream rest tc None, rdr (next_n n (drop_cr (removelast l'))), (zero_bed, 2))
+      | Bed.Yield b n' => Ret (Stream rest tc None, rdr n', (bed_of b, 0))
+      end
+    | (tail, None) =>
+      match t with
+      | TErr => Ret (Stream [] 2 None, rdr n, (zero_bed, 2))
+      | TEOF =>
+        match Bed.do_line n tail with
+        | Bed.Skip => Ret (Stream [] 1 None, rdr n, (zero_bed, 1))
+        | Bed.StopErr => Ret (Stream [] 1 None, rdr (next_n n (drop_cr tail)), (zero_bed, 2))
+        | Bed.Yield b n' => Ret (Stream [] 1 None, rdr n', (bed_of b, 0))
+        end
+      end
+    end
+  end.
+
+Lemma take_line_some s l' rest : take_line 10 s = (l', Some rest) ->
+  exists l, l' = l ++ [10%N] /\ s = l ++ 10%N :: rest /\ ~ In 10%N l.
+Proof.
+  revert l' rest. induction s as [|c s IH]; intros l' rest H; cbn [take_line] in H; [discriminate|].
+  destruct (N.eqb_spec c 10) as [->|Hc].
+  - injection H as <- <-. exists []. repeat split. intros [].
+  - destruct (take_line 10 s) as [l o] eqn:E. injection H as <- ->.
+    destruct (IH _ _ eq_refl) as (l0 & -> & -> & Hn). exists (c :: l0). repeat split.
+    intros [Hi|Hi]; [congruence|contradiction].
+Qed.
+
+Lemma take_line_none s l : take_line 10 s = (l, None) -> s = l /\ ~ In 10%N l.
+Proof.
+  revert l. induction s as [|c s IH]; intros l H; cbn [take_line] in H.
+  - injection H as <-. split; [reflexivity|intros []].
+  - destruct (N.eqb_spec c 10) as [->|Hc]; [discriminate|].
+    destruct (take_line 10 s) as [l0 o] eqn:E. injection H as <- ->.
+    destruct (IH _ eq_refl) as (-> & Hn). split; [reflexivity|].
+    intros [Hi|Hi]; [congruence|contradiction].
+Qed.
+
+Lemma imp_read_is_rd_res : forall k n s,
+  imp_bed_reader_read k (Stream s tc None) (rdr n) = rd_res k n s.
+Proof.
+  induction k as [|k IH]; intros n s; rewrite imp_bed_read_unfold; [reflexivity|].
+  cbn [go_while rd_res].
+  destruct (take_line 10 s) as [l' [rest|]] eqn:E.
+  - destruct (take_line_some _ _ _ E) as (l & -> & -> & Hn).
+    rewrite (br_body_line n l rest tc Hn). rewrite removelast_last.
+    destruct (Bed.do_line n l); cbn [after]; try reflexivity.
+    rewrite <- IH, imp_bed_read_unfold. reflexivity.
+  - destruct (take_line_none _ _ E) as (-> & Hn).
+    rewrite (br_body_tail n l' t Hn). destruct t; [|reflexivity].
+    destruct (Bed.do_line n l'); reflexivity.
+Qed.
+
+
+Lemma rd_res_enough : forall k1 k2 n s, (length s < k1)%nat -> (length s < k2)%nat -> rd_res k1 n s = rd_res k2 n s.
+Proof.
+  induction k1 as [|k1 IH]; intros k2 n s H1 H2; [lia|]. destruct k2 as [|k2]; [lia|].
+  cbn [rd_res]. destruct (take_line 10 s) as [l' [rest|]] eqn:E; [|reflexivity].
+  destruct (take_line_some _ _ _ E) as (l & -> & -> & Hn).
+  destruct (Bed.do_line n (removelast (l ++ [10%N]))); try reflexivity.
+  apply IH; rewrite app_length in *; cbn [length] in *; lia.
+Qed.
+
+(* the model's decode from reader state n *)
+Definition dec (n : nat) (s : bytes) : list (item Bed.bed) :=
+  let '(ls, tail) := rs_lines s in Bed.dec_lines n ls tail t.
+
+Lemma not_in_memb (l : bytes) : ~ In 10%N l -> memb 10%N l = false.
+Proof.
+  intros H. unfold memb. destruct (existsb (N.eqb 10%N) l) eqn:E; [|reflexivity].
+  apply existsb_exists in E. destruct E as (x & Hx & Ex). apply N.eqb_eq in Ex. subst x. contradiction.
+Qed.
+
+Lemma rs_lines_cons l rest : ~ In 10%N l ->
+  rs_lines (l ++ 10%N :: rest) = (l :: fst (rs_lines rest), snd (rs_lines rest)).
+Proof.
+  intros H. unfold rs_lines, LF. cbv zeta.
+  pose proof (BaseProofs.split_on_app 10%N l rest (not_in_memb l H)) as E. unfold bytes, byte in *. rewrite E.
+  pose proof (BaseProofs.split_on_nonnil 10%N rest) as Hne.
+  destruct (split_on 10%N rest) as [|p ps]; [congruence|]. reflexivity.
+Qed.
+
+Lemma rs_lines_clean tail : ~ In 10%N tail -> rs_lines tail = ([], tail).
+Proof.
+  intros H. unfold rs_lines, LF. cbv zeta.
+  pose proof (BaseProofs.split_on_clean 10%N tail (not_in_memb tail H)) as E. unfold bytes, byte in *. rewrite E. reflexivity.
+Qed.
+
+Lemma dec_line n l rest : ~ In 10%N l ->
+  dec n (l ++ 10%N :: rest)
+  = match Bed.do_line n l with
+    | Bed.Skip => dec n rest
+    | Bed.StopErr => [ErrItem]
+    | Bed.Yield b n' => Rec b :: dec n' rest
+    end.
+Proof.
+  intros H. unfold dec. rewrite (rs_lines_cons l rest H). destruct (rs_lines rest) as [ls tail]. reflexivity.
+Qed.
+
+Lemma dec_tail n tail : ~ In 10%N tail -> dec n tail = Bed.dec_lines n [] tail t.
+Proof. intros H. unfold dec. rewrite (rs_lines_clean tail H). reflexivity. Qed.
+
+Definition bed_item (i : item Bed.bed) : imp_bed_BED * Z :=
+  match i with Rec b => (bed_of b, 0) | ErrItem => (zero_bed, 2) end.
+
+(* what one read() gives, in terms of the model's decode *)
+Lemma rd_dec : forall k n s, (length s < k)%nat ->
+  exists rest r' b e, rd_res k n s = Ret (Stream rest tc None, r', (b, e))
+    /\ ((e = 1 /\ dec n s = [])
+        \/ (e = 2 /\ dec n s = [ErrItem] /\ b = zero_bed)
+        \/ (e = 0 /\ exists bb n', b = bed_of bb /\ r' = rdr n' /\ dec n s = Rec bb :: dec n' rest /\ (length rest < length s)%nat)).
+Proof.
+  induction k as [|k IH]; intros n s Hk; [lia|]. cbn [rd_res].
+  destruct (take_line 10 s) as [l' [rest|]] eqn:E.
+  - destruct (take_line_some _ _ _ E) as (l & -> & -> & Hn). rewrite removelast_last, (dec_line n l rest Hn).
+    destruct (Bed.do_line n l) as [| |b n'] eqn:D.
+    + destruct (IH n rest) as (rest' & r' & b & e & Hr & Hc); [rewrite app_length in Hk; cbn [length] in Hk; lia|].
+      exists rest', r', b, e. split; [exact Hr|].
+      destruct Hc as [Hc|[Hc|(He & bb & n' & Hb & Hr' & Hd & Hl)]]; [left; exact Hc|right; left; exact Hc|].
+      right. right. split; [exact He|]. exists bb, n'. repeat split; try assumption.
+      rewrite app_length. cbn [length]. lia.
+    + do 4 eexists. split; [reflexivity|]. right. left. repeat split.
+    + do 4 eexists. split; [reflexivity|]. right. right. split; [reflexivity|]. exists b, n'. repeat split.
+      rewrite app_length. cbn [length]. lia.
+  - destruct (take_line_none _ _ E) as (-> & Hn). rewrite (dec_tail n l' Hn). cbn [Bed.dec_lines].
+    destruct t eqn:Et.
+    + destruct (Bed.do_line n l') as [| |b n'] eqn:D.
+      * do 4 eexists. split; [reflexivity|]. left. split; reflexivity.
+      * do 4 eexists. split; [reflexivity|]. right. left. repeat split.
+      * do 4 eexists. split; [reflexivity|]. right. right. split; [reflexivity|]. exists b, n'. repeat split.
+        -- unfold dec. cbn. rewrite Et. reflexivity.
+        -- destruct l' as [|c l']; [|cbn [length]; lia]. cbn in D. discriminate.
+    + do 4 eexists. split; [reflexivity|]. right. left. repeat split.
+Qed.
+
+Definition ro_state : Type := (imp_bed_reader * list (imp_bed_BED * Z) * go_stream)%type.
+Definition ro_body (fuel : nat) : ro_state -> res ro_state (go_stream * list (imp_bed_BED * Z)) :=
+  (fun '((rd, out__, rd__) : (imp_bed_reader * _ * go_stream)) => go_call (imp_bed_reader_read fuel rd__ rd) (fun '(rd__, t__3, (t__1, t__2)) => let rd := t__3 in let bed := t__1 in let err := t__2 in after (if (Z.eqb err 1%Z) then Ret (rd__, out__) else Next tt) (fun 'tt => after (if (negb (Z.eqb err 0%Z)) then (let out__ := out__ ++ [((Imp_bed_BED 0%Z (@nil N) 0%Z 0%Z (@nil N) 0%Z (@nil N) 0%Z 0%Z (repeat 0%N 3) 0%Z [] []), err)] in let t__4 := true in Ret (rd__, out__)) else Next out__) (fun out__ => (let out__ := out__ ++ [(bed, 0%Z)] in let t__5 := true in (if (negb t__5) then Ret (rd__, out__) else Next (rd, out__, rd__))))))).
+
+Lemma ro_loop fuel : forall m s n out fw, (length s <= m)%nat -> (length s < fuel)%nat -> (m + 1 < fw)%nat ->
+  exists st, go_while fw (fun _ => Ret true) (ro_body fuel) (rdr n, out, Stream s tc None)
+             = Ret (st, out ++ map bed_item (dec n s)).
+Proof.
+  induction m as [|m IH]; intros s n out fw Hm Hf Hw; (destruct fw as [|fw]; [lia|]); cbn [go_while];
+    unfold ro_body at 1; cbv beta iota; rewrite imp_read_is_rd_res;
+    destruct (rd_dec fuel n s Hf) as (rest & r' & b & e & Hr & Hc); rewrite Hr; cbn [go_call]; cbv beta iota zeta;
+    destruct Hc as [(-> & Hd)|[(-> & Hd & ->)|(-> & bb & n' & -> & -> & Hd & Hl)]]; rewrite Hd; cbn [Z.eqb Pos.eqb negb after map bed_item].
+  - eexists. rewrite app_nil_r. reflexivity.
+  - eexists. reflexivity.
+  - lia.
+  - eexists. rewrite app_nil_r. reflexivity.
+  - eexists. reflexivity.
+  - destruct (IH rest n' (out ++ [(bed_of bb, 0)]) fw) as (st & Hst); [lia|lia|lia|].
+    rewrite Hst. eexists. rewrite <- app_assoc. reflexivity.
+Qed.
+
+Theorem imp_bed_Reader_ok fuel s : (length s + 2 < fuel)%nat ->
+  exists st, imp_bed_Reader fuel (Stream s tc None) = Ret (st, map bed_item (Bed.decode s t)).
+Proof.
+  intros Hf. unfold imp_bed_Reader. cbv zeta.
+  change (go_while fuel _ _ (Imp_bed_reader 0, [], ?st))
+    with (go_while fuel (fun _ => Ret true) (ro_body fuel) (rdr 0, [], st)).
+  destruct (ro_loop fuel (length s) s 0%nat [] fuel (le_n _)) as (st & Hst); [lia|lia|].
+  rewrite Hst. exists st. reflexivity.
+Qed.
+
+End BedReader.
